@@ -16,8 +16,11 @@
 (*   mk s via d a   slot s := closure {x += p; return x} over a new x = a, *)
 (*                  created inside d nested function literals, escaping    *)
 (*                  via the maker's result / a global / a slice element    *)
-(*   mkptr s a      slot s := &x of a new local x = a                       *)
-(*   mkboth s a     slot s := closure and pointer over the same x          *)
+(*   mkptr s d a    slot s := &x of a new local x = a; the address is taken *)
+(*                  in the variable's own block (d=1) or d-1 nested blocks  *)
+(*                  with their own locals further in                        *)
+(*   mkboth s d a   slot s := closure and pointer over the same x          *)
+(*   recarg n       f(n) = sum3(n, 100, f(n-1)): ev("ra", n, f(n))          *)
 (*   use s p        closure: ev("u", s, clo(p)); pointer: ev("p", s, *ptr);*)
 (*                  *ptr += 10                                             *)
 (*   burn n         n calls of a short function (recycles pooled frames)   *)
@@ -44,16 +47,16 @@ Mk(s, via, d, a) ==
     /\ hist' = Append(hist, [op |-> "mk", s |-> s, via |-> via, d |-> d, a |-> a])
     /\ UNCHANGED log
 
-MkPtr(s, a) ==
+MkPtr(s, d, a) ==
     /\ cells' = Append(cells, a)
     /\ slots' = [slots EXCEPT ![s] = [t |-> "ptr", c |-> NewCell(a)]]
-    /\ hist' = Append(hist, [op |-> "mkptr", s |-> s, a |-> a])
+    /\ hist' = Append(hist, [op |-> "mkptr", s |-> s, d |-> d, a |-> a])
     /\ UNCHANGED log
 
-MkBoth(s, a) ==
+MkBoth(s, d, a) ==
     /\ cells' = Append(cells, a)
     /\ slots' = [slots EXCEPT ![s] = [t |-> "both", c |-> NewCell(a)]]
-    /\ hist' = Append(hist, [op |-> "mkboth", s |-> s, a |-> a])
+    /\ hist' = Append(hist, [op |-> "mkboth", s |-> s, d |-> d, a |-> a])
     /\ UNCHANGED log
 
 Use(s, p) ==
@@ -76,11 +79,18 @@ Rec(n) == /\ hist' = Append(hist, [op |-> "rec", n |-> n])
           /\ log' = Append(log, <<"r", n, n>>)
           /\ UNCHANGED <<slots, cells>>
 
+\* f(n) = sum3(n, 100, f(n-1)), f(0) = 0: a call with three arguments whose last argument
+\* re-enters the same call site while the first two are already evaluated
+RecArg(n) == /\ hist' = Append(hist, [op |-> "recarg", n |-> n])
+             /\ log' = Append(log, <<"ra", n, (n * (n + 1)) \div 2 + 100 * n>>)
+             /\ UNCHANGED <<slots, cells>>
+
 Next == /\ Len(hist) < MaxOps
         /\ \/ \E s \in Slots, via \in Vias, d \in Depths : Mk(s, via, d, 3)
-           \/ \E s \in Slots : MkPtr(s, 4) \/ MkBoth(s, 5) \/ Use(s, 2)
+           \/ \E s \in Slots, d \in Depths : MkPtr(s, d, 4) \/ MkBoth(s, d, 5)
+           \/ \E s \in Slots : Use(s, 2)
            \/ \E n \in Burns : Burn(n)
-           \/ \E n \in Recs : Rec(n)
+           \/ \E n \in Recs : Rec(n) \/ RecArg(n)
 
 Spec == Init /\ [][Next]_vars
 
